@@ -46,6 +46,17 @@ def state_regions(nx):
 
 
 def run(ctx):
+    run_reader(ctx)
+    # "arbitrary corruption never causes a panic or endless loop": the bytes of a damaged block reach the datum decoder,
+    # whose panic / loop / depth / allocation inventory is C04's (shared here; keys C17/PANIC/<decode-path function>/..)
+    from . import c04
+    pm = getattr(ctx, 'panic_matcher', None)
+    c04.run(ctx)
+    if pm is not None:
+        ctx.panic_matcher = pm
+
+
+def run_reader(ctx):
     f = ctx.f
     nx = fn_by_label(f, P + 'Reader::deserialize_next_inner')
     if nx is None:
